@@ -158,6 +158,26 @@ impl NamespaceStates {
     }
 }
 
+#[cfg(feature = "verif")]
+impl NamespaceStates {
+    /// Verification hook: read-only view of the slot of a (document, peer) pair.
+    pub fn verif_slot(&self, namespace: &NamespaceId, node: &EndpointId) -> Option<(u8, bool)> {
+        let peer = self.0.get(namespace)?.nodes.get(node)?;
+        let slot = match &peer.state {
+            SyncState::Idle => 0,
+            SyncState::Running {
+                origin: Origin::Connect(_),
+                ..
+            } => 1,
+            SyncState::Running {
+                origin: Origin::Accept,
+                ..
+            } => 2,
+        };
+        Some((slot, peer.resync_requested))
+    }
+}
+
 /// State of a node with regard to a namespace.
 #[derive(Default)]
 struct PeerState {
